@@ -13,7 +13,7 @@ RULE = (
     "typed position through a generic device read, write and batch read; every LogicSlotType member through a slot of a structure "
     "that exposes it (single and batch); the four batch methods in both spellings; every string over the alphabet {a, Z, 0, space, "
     "_, ., -, e-acute, ), (, double quote} of length 0..3 (quick) / 0..4 (thorough) as HASH argument, named-batch name, Devices() prefab name and as a hash held in a variable that names a batch; every "
-    "ASCII string of length 1..6 over 3 characters as STR argument; integer literals around the format_int boundaries written in "
+    "ASCII string of length 1..6 over 3 characters and 40 longer display strings (7..13 characters) as STR argument; integer literals around the format_int boundaries written in "
     "decimal and hex; plus every program of DEV, FUNC, LIST, LIB and the repository's own programs x {inline, remove_labels} vectors.  "
     "Each source is compiled with compact off and on (other options equal); both outputs are tokenised by the harness and every "
     "token is evaluated with the harness's own CRC-32, byte packing, literal parser and the enum tables, using the operand kind of "
@@ -202,6 +202,11 @@ def build_cases(tier):
     st = []
     for ln in range(1, 7):
         st += ["".join(t) for t in itertools.product("aZ ", repeat=ln)]
+    # longer display strings (more than the 6 characters a number can hold exactly: they must stay symbolic or keep their value)
+    words = ["Pressure", "Temperature", "Main Battery", "Setting", "ABCDEFG", "zzzzzzzz", "        ", "A1b2C3d4E5", "Hello World!", "0123456789012"]
+    for w in words:
+        for n in range(7, len(w) + 1):
+            st.append(w[:n])
     for j in range(0, len(st), 60):
         chunk = st[j : j + 60]
         src = "".join(f"db.Setting = STR({json.dumps(s)})\n" for s in chunk)
